@@ -795,3 +795,48 @@ package connect
 //@     invariant 0 - 1 <= rangeindex && rangeindex < |options| && unfoldDpre(seq(options), rangeindex + 1)
 //@     invariant flat(config.Interceptor) == dpre(seq(options), rangeindex + 1)
 //@     decreases |options| - rangeindex
+
+// ---------------------------------------------------------------------------
+// recover.go (C19)
+// ---------------------------------------------------------------------------
+
+// handleCalls / handleArg: how often the user's recovery function ran in this call, and with which value.
+//@ constfield recoverHandlerInterceptor.handle
+//@ ghostfield global handleCalls int
+//@ ghostfield global handleArg ref
+//@ trusted func field:recoverHandlerInterceptor.handle(ctx, spec, header, r) res
+//@   assigns everything, handleCalls(), handleArg()
+//@   ensures handleCalls() == old(handleCalls()) + 1 && handleArg() == r
+//@   doc: "the user-supplied recovery function"
+// The wrapped handler / next interceptor: arbitrary code that returns or panics with any value.
+//@ trusted func (*recoverHandlerInterceptor).WrapStreamingHandler$1.next(ctx, conn) res
+//@   panics
+//@   assigns everything
+//@ trusted func (*recoverHandlerInterceptor).WrapUnary$1.next(ctx, req) (res, err)
+//@   panics
+//@   assigns everything
+//@ trusted func AnyRequest.Spec(r) res
+//@ trusted func AnyRequest.Header(r) res
+
+//@ func (*recoverHandlerInterceptor).WrapStreamingHandler$1(ctx, conn) retErr
+//@   tags C19
+//@   requires deref(i) != nil && deref(next) != nil && deref(i).handle != nil
+//@   assigns everything, handleCalls(), handleArg()
+//@   ensures !panicked("(*recoverHandlerInterceptor).WrapStreamingHandler$1.next", 1) ==> retErr == callres("(*recoverHandlerInterceptor).WrapStreamingHandler$1.next", 1) && handleCalls() == old(handleCalls())   // label: no-panic-is-transparent
+//@   ensures panicked("(*recoverHandlerInterceptor).WrapStreamingHandler$1.next", 1) ==> panicval("(*recoverHandlerInterceptor).WrapStreamingHandler$1.next", 1) != http.ErrAbortHandler && handleCalls() == old(handleCalls()) + 1 && handleArg() == panicval("(*recoverHandlerInterceptor).WrapStreamingHandler$1.next", 1) && retErr == callres("field:recoverHandlerInterceptor.handle", 1)   // label: panic-runs-the-recovery-function-once-with-the-value-and-returns-its-error
+//@   panicensures panicked("(*recoverHandlerInterceptor).WrapStreamingHandler$1.next", 1) && panicvalue == http.ErrAbortHandler && panicval("(*recoverHandlerInterceptor).WrapStreamingHandler$1.next", 1) == http.ErrAbortHandler && handleCalls() == old(handleCalls())   // label: abort-sentinel-is-re-raised-untouched
+
+//@ func (*recoverHandlerInterceptor).WrapUnary$1(ctx, req) (res, retErr)
+//@   tags C19
+//@   requires req != nil && deref(i) != nil && deref(next) != nil && deref(i).handle != nil
+//@   assigns everything, handleCalls(), handleArg()
+//@   ensures called("(*recoverHandlerInterceptor).WrapUnary$1.next", 1) ==> res == callres("(*recoverHandlerInterceptor).WrapUnary$1.next", 1, 0) && retErr == callres("(*recoverHandlerInterceptor).WrapUnary$1.next", 1, 1) && handleCalls() == old(handleCalls())   // label: client-side-is-transparent
+//@   ensures called("(*recoverHandlerInterceptor).WrapUnary$1.next", 2) && !panicked("(*recoverHandlerInterceptor).WrapUnary$1.next", 2) ==> res == callres("(*recoverHandlerInterceptor).WrapUnary$1.next", 2, 0) && retErr == callres("(*recoverHandlerInterceptor).WrapUnary$1.next", 2, 1) && handleCalls() == old(handleCalls())   // label: no-panic-is-transparent
+//@   ensures panicked("(*recoverHandlerInterceptor).WrapUnary$1.next", 2) ==> panicval("(*recoverHandlerInterceptor).WrapUnary$1.next", 2) != http.ErrAbortHandler && handleCalls() == old(handleCalls()) + 1 && handleArg() == panicval("(*recoverHandlerInterceptor).WrapUnary$1.next", 2) && retErr == callres("field:recoverHandlerInterceptor.handle", 1)   // label: panic-runs-the-recovery-function-once-with-the-value-and-returns-its-error
+//@   ensures !panicked("(*recoverHandlerInterceptor).WrapUnary$1.next", 1)                                    // label: client-side-panics-are-not-swallowed
+//@   panicensures (panicked("(*recoverHandlerInterceptor).WrapUnary$1.next", 1) && panicvalue == panicval("(*recoverHandlerInterceptor).WrapUnary$1.next", 1) && handleCalls() == old(handleCalls())) || (panicked("(*recoverHandlerInterceptor).WrapUnary$1.next", 2) && panicvalue == http.ErrAbortHandler && panicval("(*recoverHandlerInterceptor).WrapUnary$1.next", 2) == http.ErrAbortHandler && handleCalls() == old(handleCalls()))   // label: only-client-side-panics-and-the-abort-sentinel-propagate
+
+//@ func WithRecover(handle) res
+//@   tags C19, C16
+//@   ensures res != nil && |decl(res)| == 1 && typeis(decl(res)[0], "*recoverHandlerInterceptor") && cast(decl(res)[0], "*recoverHandlerInterceptor").handle == handle   // label: installs-exactly-one-recover-interceptor
+//@   assert@call(WithInterceptors#1): unfoldFall(seq(arg0), 0) && unfoldFall(seq(arg0), 1) && |arg0| == 1   // label: one-interceptor-passed
